@@ -1,6 +1,6 @@
 """C03 - TCP handshake packets are rendered into the p0f signature their headers define.
 
-Structural clauses decided (DESIGN.md §5 C03):
+Structural clauses decided:
  R1  the end-of-options marker terminates the option walk
  R2  each quirk is pushed exactly under its defining header condition (table over pnet accessors, masks, polarity)
  R2b every quirk of the vocabulary has a producer
@@ -8,6 +8,13 @@ Structural clauses decided (DESIGN.md §5 C03):
  R4  the MTU observable depends on the MSS only (plus constants)
  R5  field routing of TcpObservation; option kind -> layout token table; MSS / WS decoding
  R6  flag sanity filter (is_valid), TTL classification (calculate_ttl / guess_distance interval table)
+ R7  window rendering: every mss*k / mtu*k / %m return of detect_win_multiplicator divides by a divisor of the specification
+     table (tables/spec_tables.json) under that divisor's remainder test and IP-version / timestamp guards; MSS patterns are
+     tried before the modulo patterns; the table is complete
+ R8  Display of an observed signature: same skeleton as the database text, `*` exactly when the option is absent, getters
+     return the like-named observation fields
+ R9  the MTU link label search covers every [mtu] entry and value
+ C06.R1/R2 the tokens Display prints are the ones the database parser reads back (shared with C06)
 """
 from ..engine import cfg as C
 from ..engine import decision as D
@@ -748,6 +755,19 @@ def rule_mtu_label(ctx):
         nn += 1
         if rb in inloop or (tt[0] == "call" and tt[1].endswith("from_residual")):
             bad.append(rb)
+    if not loops:
+        # combinator form: database.mtu.iter().find_map(|(link, mtus)| mtus.iter().find(..).map(..)) - no truncation anywhere
+        S = T.Slicer(b, P)
+        calls = []
+        for cb in [b] + P.closures_of(b.path):
+            calls += [callee_of(t) for _, t in cb.calls()]
+        outer = any(c.endswith(("::find_map", "::flat_map", "::filter_map")) for c in calls)
+        inner = any(c.endswith(("::find", "::any", "::position", "::contains")) for c in calls)
+        trunc = sorted({T.short(c) for c in calls if c.endswith(("::take", "::nth", "::first", "::last", "::skip", "::take_while", "::step_by", "::next_back", "::rev", "::from_residual"))})
+        over = any(x[0] == "field" and x[2] == "mtu" for _, t in b.calls() for a in Q.call_args(b, S, _, t) for x in T.walk(a))
+        ctx.check(outer and inner and over and not trunc, "R9", "matching_by_mtu:exhaustive", "find_map over all [mtu] entries, find inside each",
+                  "the MTU search does not cover every link type and every value (%s)" % (",".join(trunc) or "search structure not recognised"), ctx.loc(b))
+        return
     ctx.check(not bad and len(loops) >= 2 and nn >= 1, "R9", "matching_by_mtu:exhaustive", "None only after both loops are exhausted (%d loops)" % len(loops),
               "the MTU search gives up inside the loop (a `?` / early None on the first link type without a hit): only the first [mtu] entry can ever be reported, "
               "every other known MTU loses its link label", ctx.loc(b, bad[0]) if bad else ctx.loc(b))
